@@ -6,6 +6,7 @@ import Drv.Conn
 import Drv.Table
 import Drv.TableOps
 import Drv.CHash
+import Drv.PM
 /-! Line-protocol driver: `driver <model>` reads operations on stdin, prints the model's answers. Core-only. -/
 def main (args : List String) : IO UInt32 := do
   let h ← IO.getStdin
@@ -13,6 +14,7 @@ def main (args : List String) : IO UInt32 := do
   | "dq" :: r => Drv.DQ.run r; pure 0
   | "bw" :: r => Drv.BW.run r; pure 0
   | "agg" :: r => Drv.Agg.run r; pure 0
+  | "pm" :: r => Drv.PM.run r; pure 0
   | "chash" :: r => Drv.CHash.run r; pure 0
   | "tableops" :: r => Drv.TableOps.run r; pure 0
   | "table" :: r => Drv.Table.run r; pure 0
